@@ -385,11 +385,10 @@ fn judge_parse<T>(
                 });
                 Ok(None)
             } else if !e.contains(NESTING_MSG) {
-                Err(Fail::new(
-                    format!("{what}-rejected-with-another-error"),
-                    format!("nesting depth {depth} > {d} was rejected, but not with the nesting error:\n{e}"),
-                    show(),
-                ))
+                // The property only demands a rejection; which error is reported
+                // (and its wording) is not fixed, so this is recorded, not failed.
+                st.class("rejected-over-limit-with-another-error");
+                Ok(None)
             } else {
                 Ok(None)
             }
